@@ -282,6 +282,12 @@ impl World {
         self.emit(op.clone(), obs.clone());
         if self.panicked {
             self.fail(format!("C12: operation panicked: {}", op), "");
+            // the same event seen from the properties about that operation: a scaling step that panics cannot complete
+            // (C10), a failover that panics promotes nothing (C06)
+            if matches!(kind.as_str(), "add_nodes" | "scale_up" | "change_num" | "scale_out_num" | "del_free" | "migrate" | "scale_down" | "commit") {
+                self.fail(format!("C10: scaling operation panicked: {}", op), "");
+            }
+            if kind == "failover" { self.fail(format!("C06: failover panicked: {}", op), ""); }
             return;
         }
         self.observe();
@@ -374,6 +380,11 @@ impl World {
                 let e: u64 = toks[2].parse().unwrap_or(u64::MAX);
                 let pending = c.chunks.iter().flat_map(|ch| ch.migrating_slots.iter()).flat_map(|l| l.iter())
                     .any(|m| m.is_migrating && m.meta.epoch == e && render_ranges(&m.range_list) == toks[3]);
+                // ... and only such a descriptor: a commit that names no running migration (a delayed duplicate of an
+                // earlier commit, a foreign epoch) must be refused and change nothing - every migration is committed once
+                if !pending && obs.starts_with("OK") {
+                    self.fail(format!("C10: a commit whose descriptor ({} epoch {}) names no running migration was accepted", toks[3], e), "");
+                }
                 if pending && !obs.starts_with("OK") {
                     self.fail(format!("C10: the descriptor of a pending migration ({} {} tag {}) was not accepted: {}", toks[3], e, toks[4], obs), "");
                 }
